@@ -146,7 +146,9 @@ package httpgrpc
 //
 //@ type clientStream
 //@   guarded_by rMu : done, rErr
+//@   guarded_by wMu : wErr
 //@   invariant[C02,C04,C07] final_error_is_reportable: self.rErr != io.EOF && self.rErr != context.Canceled && self.rErr != context.DeadlineExceeded
+//@   invariant[C05] closed_delivery_channel_means_done: closed(self.rCh) ==> self.done
 //
 // doHttpCall is the body of the goroutine spawned by NewStream (exactly one per
 // stream). It is the only closer of cs.rCh and the only caller of ready.Done.
@@ -166,7 +168,8 @@ package httpgrpc
 //@   ensures[C02,C07] success_means_trailer_or_status_seen: cs.rErr == nil && !called("readProtoMessage") ==> cs.tr.Code != 0
 //@   assert_call[C13] getPeer : peer_from_reply_tls: arg0 == cs.baseUrl && arg1 == lastresult("http.RoundTripper.RoundTrip", 0).TLS
 //@   assert_call[C04] http.RoundTripper.RoundTrip : request_carries_stream_context: arg0 == transport
-//@   assert_call[C07,C01] readProtoMessage : trailer_size_is_negated_prefix: arg0 == reply_body && arg1 == cs.codec && sz < 0 && (sz > -2147483648 ==> arg2 == 0 - sz) && (sz == -2147483648 ==> arg2 < 0)
+//@   assert_call[C01,C07] send : delivers_exactly_the_frame_just_read: arg0 == cs.rCh && 0 <= sz && len(arg1) == sz && sz == be32(reply_body, rd_pos(reply_body) - sz - 4) && (forall j int :: 0 <= j && j < sz ==> arg1[j] == rd_at(reply_body, rd_pos(reply_body) - sz + j))
+//@   assert_call[C07,C01,C02] readProtoMessage : trailer_size_is_negated_prefix: arg0 == reply_body && arg1 == cs.codec && sz < 0 && (sz > -2147483648 ==> arg2 == 0 - sz) && (sz == -2147483648 ==> arg2 < 0)
 //@   modifies everything
 
 // ---- C11: HTTP server gatekeeping (server.go, protocol_versions.go) ----
@@ -303,4 +306,81 @@ package httpgrpc
 //@   assert_call[C05,C04,C13] newClientStream : stream_owns_the_call_context_and_options: arg0 == lastresult("context.WithCancel", 0) && arg1 == lastresult("context.WithCancel", 1) && arg2 == boxed(lastresult("io.Pipe", 1)) && arg3 == desc.ServerStreams && arg4 == lastresult("internal.GetCallOptions") && arg5 == ch.BaseURL
 //@   ensures[C05,C01] exactly_one_reader_goroutine_per_stream: result1 == nil ==> calls("go") == 1 && result0 != nil
 //@   assert_call[C05,C04,C12] go:(*clientStream).doHttpCall : the_stream_reader_with_this_request: arg0 == lastresult(newClientStream) && arg1 == ch.Transport && arg2 == lastresult("http.NewRequest", 0) && arg3 == lastresult("io.Pipe", 0)
+//@   modifies everything
+
+// ---- clientStream methods (client.go): C02, C08, C05, C03, C04 ----
+//
+//@ func (*clientStream).readErrorIfDone
+//@   ensures[C02] not_done_no_verdict: !result0 ==> result1 == nil
+//@   ensures[C05] not_done_means_delivery_channel_still_open: !result0 ==> !closed(cs.rCh)
+//@   ensures[C02] done_never_reports_nil: result0 ==> result1 != nil
+//@   ensures[C02,C07,C04] verdict_is_reportable: result1 != context.Canceled && result1 != context.DeadlineExceeded
+//@   assert_call[C02] status.FromProto : status_from_the_trailer: arg0.Code == cs.tr.Code && arg0.Message == cs.tr.Message && arg0.Details == cs.tr.Details && cs.tr.Code != 0 && cs.rErr == nil && cs.done
+//@   ensures[C02] end_of_stream_only_for_an_ok_trailer: result0 && result1 == io.EOF ==> !called("status.FromProto")
+//@   modifies nothing
+//
+//@ func (*clientStream).Trailer
+//@   ensures[C03] no_trailers_before_the_end: !called(metadataFromProto) ==> result == nil
+//@   assert_call[C03] metadataFromProto : of_the_received_trailer_once_done: arg0 == cs.tr.Metadata && cs.done
+//@   modifies nothing
+//
+//@ func (*clientStream).CloseSend
+//@   ensures[C05] closes_the_request_pipe_once: calls("io.WriteCloser.Close") == 1
+//@   assert_call[C05] io.WriteCloser.Close : arg0 == cs.w
+//@   modifies external
+//
+//@ func (*clientStream).SendMsg
+//@   ensures[C05] finished_stream_reports_eof_and_writes_nothing: lastresult("(*clientStream).readErrorIfDone", 0) ==> result == io.EOF && !called(writeProtoMessage)
+//@   ensures[C01,C05] at_most_one_frame_per_send: calls(writeProtoMessage) <= 1
+//@   ensures[C01] write_result_is_returned_and_remembered: called(writeProtoMessage) ==> result == lastresult(writeProtoMessage)
+//@   ensures[C05] earlier_write_error_reports_eof: !lastresult("(*clientStream).readErrorIfDone", 0) && !called(writeProtoMessage) ==> result == io.EOF
+//@   assert_call[C01] writeProtoMessage : one_data_frame_for_the_message: arg0 == cs.w && arg1 == cs.codec && arg2 == m && !arg3 && cs.wErr == nil
+//@   modifies cs.wErr, external
+//
+//@ func (*clientStream).RecvMsg
+//@   blocking_escape[C05,C04] cs.ctx
+//@   ensures[C04] context_end_is_reported_as_status: called(statusFromContextError) ==> result == lastresult(statusFromContextError)
+//@   assert_call[C04] statusFromContextError : of_the_stream_context_error: arg0 == lastresult("context.Context.Err")
+//@   assert_call[C01] encoding.Codec.Unmarshal : into_the_callers_message: arg0 == cs.codec && arg2 == m
+//@   ensures[C01] at_most_one_message_decoded_per_receive: calls("encoding.Codec.Unmarshal") <= 1
+//@   ensures[C08,C01] success_delivered_a_message: result == nil ==> calls("encoding.Codec.Unmarshal") == 1 && lastresult("encoding.Codec.Unmarshal") == nil
+//@   ensures[C08] single_response_success_saw_a_clean_end: result == nil && !cs.respStream ==> calls("(*clientStream).readErrorIfDone") == 2 && lastresult("(*clientStream).readErrorIfDone", 0) && lastresult("(*clientStream).readErrorIfDone", 1) == io.EOF
+//@   ensures[C08,C02] undecodable_message_is_internal: called("encoding.Codec.Unmarshal") && lastresult("encoding.Codec.Unmarshal") != nil ==> is_status_err(result) && err_status_code(result) == 13
+//@   modifies cs.rErr, cs.done, external
+
+// ---- C12: route registration (server.go) ----
+//
+//@ func handleMethod
+//@   ensures[C12,C16] result != nil && isfunc(result, "handleMethod.return")
+//@   modifies nothing
+//@ func handleStream
+//@   ensures[C12,C16] result != nil && isfunc(result, "handleStream.return")
+//@   modifies nothing
+//
+//@ func (*Server).RegisterService
+//@   requires desc != nil && s.handlers != nil
+//@   assert_call[C15,C12] (grpchan.HandlerMap).RegisterService : registry_first_so_a_refused_registration_adds_no_route: arg0 == s.handlers && arg1 == desc && arg2 == svr && !called("(*http.ServeMux).HandleFunc")
+//@   assert_call[C12,C16] handleMethod : per_method_copy_with_the_servers_interceptor: arg0 == svr && arg1 == desc.ServiceName && fresh(arg2) && arg2.MethodName == desc.Methods[rangeindex].MethodName && arg2.Handler == desc.Methods[rangeindex].Handler && arg3 == s.unaryInt && arg4 == &s.opts
+//@   assert_call[C12,C16] handleStream : per_stream_copy_with_the_servers_interceptor: arg0 == svr && arg1 == desc.ServiceName && fresh(arg2) && arg2.StreamName == desc.Streams[rangeindex#2].StreamName && arg2.Handler == desc.Streams[rangeindex#2].Handler && arg2.ClientStreams == desc.Streams[rangeindex#2].ClientStreams && arg2.ServerStreams == desc.Streams[rangeindex#2].ServerStreams && arg3 == s.streamInt && arg4 == &s.opts
+//@   assert_call[C12] (*http.ServeMux).HandleFunc : route_is_base_path_joined_with_service_slash_method: arg0 == &s.mux && (!called(handleStream) ==> arg2 == lastresult(handleMethod) && arg1 == path_join2(s.basePath, fmt_slash2(desc.ServiceName, desc.Methods[rangeindex].MethodName))) && (called(handleStream) ==> arg2 == lastresult(handleStream) && arg1 == path_join2(s.basePath, fmt_slash2(desc.ServiceName, desc.Streams[rangeindex#2].StreamName)))
+//@   loop loop#1 invariant[C12] one_route_per_method_so_far: calls("(*http.ServeMux).HandleFunc") == rangeindex + 1 && calls(handleMethod) == rangeindex + 1 && !called(handleStream)
+//@   loop loop#2 invariant[C12] one_route_per_stream_so_far: calls(handleStream) == rangeindex#2 + 1 && calls("(*http.ServeMux).HandleFunc") == len(desc.Methods) + rangeindex#2 + 1
+//@   ensures[C12] one_route_per_method_and_stream: calls("(*http.ServeMux).HandleFunc") == len(desc.Methods) + len(desc.Streams)
+//@   modifies everything
+//
+//@ func (*Server).GetServiceInfo
+//@   requires registry_keys_are_service_names: forall k string :: has(s.handlers, k) ==> s.handlers[k].desc != nil && s.handlers[k].desc.ServiceName == k
+//@   ensures[C15] delegates_to_the_registry: calls("(grpchan.HandlerMap).GetServiceInfo") == 1 && result == lastresult("(grpchan.HandlerMap).GetServiceInfo")
+//@   assert_call[C15] (grpchan.HandlerMap).GetServiceInfo : arg0 == s.handlers
+//@   modifies nothing
+//
+//@ closure HandleServices.arg#1
+//@   assert_call[C12,C16] handleMethod : per_method_copy_with_the_given_interceptor: arg0 == svr && arg1 == desc.ServiceName && fresh(arg2) && arg2.MethodName == desc.Methods[rangeindex].MethodName && arg2.Handler == desc.Methods[rangeindex].Handler && arg3 == unaryInt && arg4 == &hOpts
+//@   assert_call[C12,C16] handleStream : per_stream_copy_with_the_given_interceptor: arg0 == svr && arg1 == desc.ServiceName && fresh(arg2) && arg2.StreamName == desc.Streams[rangeindex#2].StreamName && arg2.Handler == desc.Streams[rangeindex#2].Handler && arg2.ClientStreams == desc.Streams[rangeindex#2].ClientStreams && arg2.ServerStreams == desc.Streams[rangeindex#2].ServerStreams && arg3 == streamInt
+//@   assert_call[C12] var:mux : route_is_base_path_joined_with_service_slash_method: (!called(handleStream) ==> arg1 == lastresult(handleMethod) && arg0 == path_join2(basePath, fmt_slash2(desc.ServiceName, desc.Methods[rangeindex].MethodName))) && (called(handleStream) ==> arg1 == lastresult(handleStream) && arg0 == path_join2(basePath, fmt_slash2(desc.ServiceName, desc.Streams[rangeindex#2].StreamName)))
+//@   modifies everything
+//
+//@ func HandleServices
+//@   ensures[C12] every_registration_is_visited: calls("(grpchan.HandlerMap).ForEach") == 1
+//@   assert_call[C12] (grpchan.HandlerMap).ForEach : over_the_given_registry: arg0 == reg && isfunc(arg1, "HandleServices.arg#1")
 //@   modifies everything
